@@ -11,7 +11,7 @@ from proj import mefuture as proj
 from world.sim import SimFuture, EXC, vname, outcome
 
 ID = "C02"
-LEAN_MODULES = ["MoreExec.Props.C02"]
+LEAN_MODULES = ["MoreExec.Props.C02", "MoreExec.Props.C02Code"]
 THEOREMS = [
     "MoreExec.MeFuture.C02_callback_exactly_once",
     "MoreExec.MeFuture.C02_outcome_stable",
@@ -19,10 +19,21 @@ THEOREMS = [
     "MoreExec.MeFuture.C02_cancel_false_when_finished",
     "MoreExec.MeFuture.C02_waiters_released",
     "MoreExec.MeFuture.C02_cancel_sections_under_lock",
+    "MoreExec.MeFuture.C02_code_add",
+    "MoreExec.MeFuture.C02_code_cancel",
+    "MoreExec.MeFuture.C02_code_set",
+    "MoreExec.MeFuture.C02_code_poll_set",
+    "MoreExec.MeFuture.C02_code_delegate_cancelled",
+    "MoreExec.MeFuture.C02_code_callback_pass",
+    "MoreExec.MeFuture.C02_code_no_overrides",
 ]
-KERNELS = ["K2"]
+KERNELS = ["K2", "K16"]
 BUDGET = {"quick": 150, "thorough": 1500}
 ASSUMPTIONS = [
+    "the CONTENT of every lock section of the protocol methods (_Future.add_done_callback / cancel / _me_delegate_cancelled, the set_* of "
+    "_OutputFuture / MapFuture / PollFuture / RetryFuture) and the callback pass are regenerated from the source (K16) and proved to be the "
+    "model's actions from any state; that each `with self._me_lock:` block is atomic with respect to the others is the lock's guarantee "
+    "(the interleaving of sections is what the model's theorems quantify over, and what the replay validates)",
     "AF1: a method of the stdlib Future is atomic (it holds Future._condition throughout)",
     "AF2: `_me_done_callbacks` is appended to only under `_me_lock` and only while the future is not done; the state change of set_* / "
     "cancel happens under `_me_lock` (both validated by the replay: an append after completion or a second callback pass is not a "
